@@ -387,6 +387,64 @@ pub fn shard_run(prop: &str, tier: &str, seed: u64, replay: Option<&serde_json::
             }
         }
     }
+    // ---- the write lock held by another process for 3.5 s / 2.6 s (within the 5 s budget)
+    if replay.is_none() && prop == "C03" && shard.mine(4) {
+        if let Some(f) = crate::checks_e1::lock_held_part(&mut cov, "C03") {
+            out.found.push(f);
+            out.cov = cov;
+            return out;
+        }
+    }
+    // ---- a snapshot upload for the version the server already holds a snapshot for, arriving in
+    // two halves, with a GetSnapshot of the same client in between (one worker thread)
+    if replay.is_none() && prop == "C03" && shard.mine(5) {
+        use crate::http::{socket_request, socket_request_two_parts, Framing};
+        use crate::ops::{Req, Resp};
+        use crate::subject::Subject;
+        use std::time::Duration;
+        for sqlite in [false, true] {
+            let dir = crate::scratch::ScratchDir::new("c03dup");
+            let cfg = crate::subject::Config::default().to_server();
+            let web = if sqlite {
+                match taskchampion_sync_server_storage_sqlite::SqliteStorage::new(dir.path()) {
+                    Ok(st) => taskchampion_sync_server::WebServer::new(cfg, None, st),
+                    Err(_) => continue,
+                }
+            } else {
+                taskchampion_sync_server::WebServer::new(cfg, None, taskchampion_sync_server_core::InMemoryStorage::new())
+            };
+            let Ok(srv) = crate::net::SockServer::start(web, 1) else { continue };
+            let c = uuid::Uuid::new_v4();
+            let to = Duration::from_secs(20);
+            let r = socket_request(&srv.addr, &Subject::build_http(c, &Req::AddVersion { parent: uuid::Uuid::nil(), data: b"v1".to_vec() }), Framing::ContentLength, to);
+            let Resp::AddOk { vid, .. } = Subject::decode_http(&Req::AddVersion { parent: uuid::Uuid::nil(), data: vec![] }, &r) else { continue };
+            let _ = socket_request(&srv.addr, &Subject::build_http(c, &Req::AddSnapshot { vid, data: vec![1u8; 5000] }), Framing::ContentLength, to);
+            let dup = Subject::build_http(c, &Req::AddSnapshot { vid, data: vec![2u8; 6000] });
+            let mut between_resp = None;
+            let addr = srv.addr.clone();
+            let t0 = std::time::Instant::now();
+            let ra = {
+                let mut between = || {
+                    between_resp = Some(socket_request(&addr, &Subject::build_http(c, &Req::GetSnapshot), Framing::ContentLength, Duration::from_secs(12)));
+                };
+                socket_request_two_parts(&srv.addr, &dup, 3000, Duration::from_secs(12), &mut between)
+            };
+            cov.evaluations += 2;
+            cov.hit(format!("duplicate-snapshot-upload-in-two-halves|{}", if sqlite { "sqlite" } else { "mem" }));
+            let rb = between_resp.unwrap_or_else(|| crate::http::HttpResp::failed("not sent".into()));
+            let bad = |r: &crate::http::HttpResp| r.failure.is_some() || r.status >= 500;
+            if bad(&ra) || bad(&rb) {
+                out.found.push(Found {
+                    property: "C03".into(),
+                    msg: format!("a snapshot upload for the version the {} server already holds a snapshot for arrives in two halves and a GetSnapshot of the same client is made in between (one worker): the upload was answered {} and the GetSnapshot {} after {} ms - a request failed or never completed merely because the two overlapped", if sqlite { "SQLite" } else { "in-memory" }, ra.describe(), rb.describe(), t0.elapsed().as_millis()),
+                    signature: "C03:duplicate snapshot upload".into(),
+                    replay: json!({"origin": "c03-dup-snapshot", "case": sqlite as usize}),
+                });
+                out.cov = cov;
+                return out;
+            }
+        }
+    }
     out.cov = cov;
     out
 }
